@@ -16,8 +16,8 @@ MANIFEST = {
             "for content types in wf_ct): the stream between ExtendedToStreamDecorator and StreamToExtendedDecorator "
             "is well formed (inprogress, per detail its chunks with eof exactly on the last, reason file, one final "
             "status) and the final result logs for each test one startTest/outcome/stopTest bracket with the same id, "
-            "outcome (error as failure), tags, times (also a time() supplied before the first startTest starts the run "
-            "itself; an explicit startTestRun resets it), skip reason and every non-empty detail. The hand-written "
+            "outcome (error as failure), tags, times (also a time() and tags() supplied before the first startTest starts "
+            "the run itself; an explicit startTestRun resets both), skip reason and every non-empty detail. The hand-written "
             "Gallina model is tied to /repo on every run by differential execution inside coqc; the oracle for a "
             "failing input is the executable statement spec_okb, proved to imply the readable Spec.",
     "note": "Trusted: Coq kernel + vm_compute; the harness (generator, driver, Gallina printer); test ids, detail "
@@ -29,22 +29,20 @@ MANIFEST = {
                  "model/implementation correspondence in coqc",
     "ref": "6 C09",
 }
-RULE = ("well-formed histories: 0-3 time() calls before the run is started (40% of the histories), optional "
+RULE = ("well-formed histories: 0-3 time() / tags() calls before the run is started (45% of the histories), optional "
         "startTestRun (else the first startTest starts the run), 0-5 tests (ids may repeat) each startTest / outcome / "
         "stopTest with time() and tags() calls before, inside and after; every outcome kind with exc_info, details or neither; "
         "0-3 details x 0-4 chunks incl. empty ones; text and binary content types with 0-2 parameters inside wf_ct; "
         "non-ASCII names, reasons and payloads; non-trivial = a test with a detail of >= 2 chunks, or >= 2 tests with "
-        "tags or supplied times, or a time() before the start of a run that has a test; distinct = distinct JSON")
+        "tags or supplied times, or a time() / tags() before the start of a run that has a test; distinct = distinct JSON")
 TRUSTED = ["doubles.StreamResult (tapped with CopyStreamResult) and doubles.ExtendedTestResult (plus a subclass that "
            "records current_tags at each outcome) are the observation instruments",
            "an exc_info argument is given to the model as the chunks TracebackContent(err, test) yields when asked "
            "directly by the harness (traceback formatting is not modelled)",
            "Python's sorted() on ASCII parameter names agrees with byte-wise String.leb"]
-ASSUMPTIONS = ["histories are well formed (Spec.C09.wf): time() anywhere, also before the run is started explicitly or by "
-               "the first startTest; the run is started before tags() (ExtendedToStreamDecorator has no tag context "
-               "before: AttributeError, reported as a suspected defect with notes/fixes/e2s-tags-before-start.patch); "
-               "tests are not nested, one outcome per test, a skip reason is not combined with details, detail names "
-               "are distinct",
+ASSUMPTIONS = ["histories are well formed (Spec.C09.wf): time() and tags() anywhere, also before the run is started "
+               "explicitly or by the first startTest; tests are not nested, one outcome per test, a skip reason is not "
+               "combined with details, detail names are distinct",
                "content types are inside Mime.wf_ct (lower-case token type/subtype/parameter names; values printable "
                "ASCII without double quote, backslash, '=?'; charset without ','): the F16 corners are outside the "
                "generated domain",
@@ -441,10 +439,15 @@ def rand_outcome(rng, i):
 def rand_history(rng, max_tests=5):
     ops = []
     explicit = rng.random() < 0.7
-    # time() before the run is started: kept by the implicit start, reset by an explicit startTestRun; last wins
-    if rng.random() < 0.4:
+    # time() / tags() before the run is started: kept by the implicit start, reset by an explicit startTestRun;
+    # the last time wins, the tags accumulate
+    r = rng.random()
+    if r < 0.45:
         for _ in range(rng.choice([1, 1, 2, 3])):
-            ops.append(["time", rng.randint(1, 50)])
+            if r < 0.15 or (r < 0.30 and rng.random() < 0.5):
+                ops.append(["time", rng.randint(1, 50)])
+            else:
+                ops.append(rand_tags_op(rng))
     if explicit:
         ops.append(["startRun"])
         ops += noise(rng)
@@ -515,6 +518,19 @@ def fixed_cases():
     out.append({"ops": [["time", 7]]})
     out.append({"ops": [["time", 7], ["time", 9], ["startRun"]]})
     out.append({"ops": [["time", 5], ["startTest", 3], ["outcome", "addSkip", 3, None, "later", None], ["stopTest", 3]]})
+    # tags() before the run is started: run-level tags of the run the first startTest starts (final status test_tags,
+    # replayed tags) for every test of it, test-local changes on top; an explicit startTestRun resets them
+    out.append({"ops": [["tags", [1], []], ["startTest", 1], ok(1), ["stopTest", 1]]})
+    out.append({"ops": [["tags", [1, 2], []], ["tags", [3], [1]], ["startTest", 1], ["tags", [4], [2]], ok(1), ["stopTest", 1],
+                        ["startTest", 2], ok(2), ["stopTest", 2], ["stopRun"]]})
+    out.append({"ops": [["time", 5], ["tags", [1], []], ["time", 6], ["startTest", 1], ok(1), ["stopTest", 1]]})
+    out.append({"ops": [["tags", [1], []], ["startRun"], ["startTest", 1], ok(1), ["stopTest", 1], ["stopRun"]]})
+    out.append({"ops": [["tags", [1], []], ["startRun"], ["tags", [2], []], ["startTest", 1], ok(1), ["stopTest", 1]]})
+    out.append({"ops": [["tags", [], [1]], ["startTest", 1], ok(1), ["stopTest", 1]]})
+    out.append({"ops": [["tags", [4], []]]})
+    out.append({"ops": [["tags", [2], []], ["startTest", 2],
+                        ["outcome", "addFailure", 2, [d(2, utf8, [b"a", b"b"])], None, None], ["stopTest", 2],
+                        ["tags", [], [2]], ["startTest", 3], ok(3), ["stopTest", 3], ["stopRun"]]})
     # same id twice, tags leaking check, time only before the run's first test
     out.append({"ops": [["startRun"], ["time", 1], ["tags", [4], []], ["startTest", 1], ["tags", [1], [4]],
                         ["outcome", "addSuccess", 1, None, None, None], ["tags", [2], []], ["stopTest", 1],
@@ -536,21 +552,21 @@ def tests_of(case):
     return [op for op in case["ops"] if op[0] == "outcome"]
 
 
-def pre_start_times(case):
-    """the time() calls before the run is started, and how it is started ('startRun' / 'startTest' / None)"""
-    n = 0
+def pre_start(case):
+    """number of time() and of tags() calls before the run is started, and how it is started ('startRun' / 'startTest' / None)"""
+    n = {"time": 0, "tags": 0}
     for op in case["ops"]:
-        if op[0] != "time":
-            return n, op[0]
-        n += 1
-    return n, None
+        if op[0] not in n:
+            return n["time"], n["tags"], op[0]
+        n[op[0]] += 1
+    return n["time"], n["tags"], None
 
 
 def nontrivial(case):
     outs = tests_of(case)
     if any(d for o in outs for d in (o[3] or []) if len(d["chunks"]) >= 2):
         return True
-    if outs and pre_start_times(case)[0] > 0:
+    if outs and sum(pre_start(case)[:2]) > 0:
         return True
     return len(outs) >= 2 and any(op[0] in ("tags", "time") for op in case["ops"])
 
@@ -600,13 +616,16 @@ def distribution(cases):
     d = {"details_with_repeated_chunk": 0, "param_values_with_upper_case": 0, "tests": {}, "kinds": {}, "via": {"exc_info": 0, "details": 0, "neither": 0}, "details_per_test": {},
          "chunks_per_detail": {}, "empty_chunks": 0, "params_per_type": {}, "text_details": 0, "binary_details": 0,
          "skip_reasons": 0, "explicit_startTestRun": 0, "stopTestRun": 0, "time_calls": 0, "tags_calls": 0,
-         "time_before_implicit_start": 0, "time_before_explicit_start": 0, "several_times_before_start": 0}
+         "time_before_implicit_start": 0, "time_before_explicit_start": 0, "several_times_before_start": 0,
+         "tags_before_implicit_start": 0, "tags_before_explicit_start": 0}
     for c in cases:
         outs = tests_of(c)
         b = min(len(outs), 5)
         d["tests"][b] = d["tests"].get(b, 0) + 1
         d["explicit_startTestRun"] += any(op[0] == "startRun" for op in c["ops"])
-        pre, how = pre_start_times(c)
+        pre, pretags, how = pre_start(c)
+        d["tags_before_implicit_start"] += pretags > 0 and how == "startTest"
+        d["tags_before_explicit_start"] += pretags > 0 and how == "startRun"
         d["time_before_implicit_start"] += pre > 0 and how == "startTest"
         d["time_before_explicit_start"] += pre > 0 and how == "startRun"
         d["several_times_before_start"] += pre > 1 and how is not None
